@@ -721,8 +721,21 @@ class World:
         self.touch_state(op['name'])
         if self.zk.nodes.get(z.path.server(op['name'])) is None:
             return
-        masterapi.delete_server(self.admin, op['name'])
+        if op.get('raw'):
+            # only the server's definition goes away (no event naming it,
+            # its placement records stay for the master to deal with)
+            zkutils.ensure_deleted(self.admin, z.path.server(op['name']))
+        else:
+            masterapi.delete_server(self.admin, op['name'])
         self.faults['server_deleted'] += 1
+        self.dirty_since_cycle = True
+
+    def op_servers_reload_all(self, _op):
+        """The 'servers' event without a list: the master compares the
+        servers it holds with the ones defined and reloads the difference."""
+        masterapi.create_event(self.admin, 0, 'servers', [])
+        self.faults['servers_reload_all'] = \
+            self.faults.get('servers_reload_all', 0) + 1
         self.dirty_since_cycle = True
 
     def op_presence_up(self, op):
@@ -1364,8 +1377,16 @@ class Generator:
 
     def g_srv_delete(self, world):
         names = self._servers(world)
-        return {'op': 'srv_delete', 'name': self.rng.choice(names)} \
-            if names else None
+        if not names:
+            return None
+        if self.rng.random() < 0.35:
+            self.follow.append({'op': 'servers_reload_all'})
+            return {'op': 'srv_delete', 'name': self.rng.choice(names),
+                    'raw': True}
+        return {'op': 'srv_delete', 'name': self.rng.choice(names)}
+
+    def g_servers_reload_all(self, world):
+        return {'op': 'servers_reload_all'}
 
     def g_presence_up(self, world):
         down = [n for n in self._servers(world)
@@ -1595,7 +1616,7 @@ OP_WEIGHTS = [
     ('master_cycle', 22), ('integrity', 3), ('tick', 1), ('restart', 3),
     ('failover_after_down', 3), ('identity_churn', 6), ('cell_bucket', 2),
     ('flap_with_reload', 2), ('zombie_write', 1), ('probe_after_group', 2),
-    ('pending_start_then_down', 2),
+    ('pending_start_then_down', 2), ('servers_reload_all', 1),
 ]
 
 
